@@ -1228,6 +1228,7 @@ func runC18(env *vk.Env) {
 		}
 	}
 	env.AddEval(int64(2*nrand + len(sigCases)))
+	lcConcurrent(env, env.Pick(400, 4000))
 
 	tBuild := lap()
 	// ---- TLC judges
@@ -1251,6 +1252,72 @@ func runC18(env *vk.Env) {
 	}
 	wg.Wait()
 	env.Sub(map[string]any{"leg": "B", "anchors": 7, "steered_digest_events": nSteered, "random_triples": nrand, "random_names": nrand, "forged_signature_events": len(sigCases), "tlc_processes": len(batches), "wall_s_recording": tBuild, "wall_s_judging": lap()})
+}
+
+// lcConcurrentBatch: the same calls as the sequential legs, made by 16 goroutines at once (a server computes the offline
+// UUID and the session hash in one goroutine per connection).
+func lcConcurrentBatch(env *vk.Env, per int, salt string) *lcBatch {
+	const G = 16
+	type rec struct {
+		c  *lcCase
+		ev any
+	}
+	out := make([][]rec, G)
+	var wg sync.WaitGroup
+	for g := 0; g < G; g++ {
+		wg.Add(1)
+		go func(g int) {
+			defer wg.Done()
+			rng := newRand(env.Seed, fmt.Sprint("c18conc", salt, g))
+			for i := 0; i < per; i++ {
+				name, _ := lcName(rng)
+				u := &lcCase{Kind: "uuid", Origin: "concurrent", Name: name}
+				out[g] = append(out[g], rec{u, lcUuidEvent(u)})
+				if i%4 == 0 {
+					c := lcTriple(rng)
+					out[g] = append(out[g], rec{c, lcDigestEvent(c)})
+				}
+			}
+		}(g)
+	}
+	wg.Wait()
+	b := &lcBatch{}
+	for _, l := range out {
+		for _, r := range l {
+			b.add(r.c, r.ev)
+		}
+	}
+	return b
+}
+
+// lcConcurrent: a rejection must show again in a second concurrent run before it is reported (a schedule cannot be
+// replayed); one that does not is inconclusive.
+func lcConcurrent(env *vk.Env, per int) {
+	var firstRej []lcRej
+	for t := 0; t < 4; t++ {
+		b := lcConcurrentBatch(env, per, fmt.Sprint(t))
+		rej, ok := lcScreen(env, b, fmt.Sprintf("B concurrent calls run %d", t), 4)
+		if !ok {
+			return
+		}
+		if len(rej) == 0 {
+			if firstRej == nil {
+				env.AddEval(int64(b.tr.N))
+				env.Distinct("concurrent/16-goroutines")
+				return
+			}
+			continue
+		}
+		if firstRej != nil {
+			c := b.cases[rej[0].line]
+			env.Report(fmt.Sprintf("%s under concurrent calls (16 goroutines, each with its own inputs) rejected by LoginCrypto_Trace", map[string]string{"uuid": "offline.NameToUUID", "digest": "authDigest"}[c.Kind]),
+				fmt.Sprintf("rejected in two concurrent runs (%d and %d lines); first of the second run: %s violated for %s", len(firstRej), len(rej), strings.Join(rej[0].reasons, ","), vkTrunc(mustJSON(c), 400)),
+				map[string]any{"kind": "rerun", "seed": env.Seed, "tier": env.Tier})
+			return
+		}
+		firstRej = rej
+	}
+	env.Infra("a rejection in the concurrent run did not show again in 3 further runs")
 }
 
 func replayC18(env *vk.Env, b []byte) {
